@@ -39,8 +39,62 @@ RULE = ("Inputs are built from dimensionless draws (domain extents, vector "
         "tuple/dict/single-value formats and property lists of length "
         "1,2,3,4,7.  Non-trivial = a mesh was returned and at least one of "
         "{node vector, sea surface, per-direction options} was active; "
-        "distinct by the complete effective inputs of the call.")
+        "distinct by the complete effective inputs of the call.  Added "
+        "after the audit: UTM-like x/y centres (3e5..7e6), mapping as Map "
+        "instance, default cell_numbers (argument omitted), reversed / "
+        "duplicated cell lists, ndarray/tuple leaves for domain, distance, "
+        "stretching, limits, center and properties in construct_mesh, "
+        "verb in {-1,0,1} and raise_error=False for origin_and_widths, "
+        "documented-invalid input in ONE direction of construct_mesh, sea "
+        "surfaces designed to be fitted (whole number >= 2 of minimum "
+        "widths + 0.02 above a centre on an edge), 1/4 of the calls repeated "
+        "with the same argument objects.  Sub-check gmc enumerates "
+        "good_mg_cell_nr(max_nr, max_lowest 2..19, min_div 0..6) against the "
+        "documented formula, hlp compares skin_depth (with mu_r), wavelength "
+        "and cell_width (pps 0.5..20, limits None/float/pair) with the "
+        "documented formulas; sub-check ego calls estimate_gridding_opts "
+        "with generated model (all cases/mappings), point-source survey and "
+        "a drawn subset of user-given options (domain/distance/vector per "
+        "direction, vector as 'xyz' string, 3-tuples/dicts, mapping str/Map, "
+        "unknown key).")
 ASSUMPTIONS = [
+    "4b: two neighbouring cells whose common node lies strictly inside the "
+    "survey domain obey stretching[0] (documented: 'first value is the "
+    "maximum stretching for the survey domain'), with the 1.1/1.25 sea "
+    "allowance; cells inside a retained user vector excluded as before",
+    "5: with a sea surface the centre is still required on a node when "
+    "center_on_edge is True/unset and no user vector is retained (the "
+    "centre nodes are then a 'vector' whose widths stay untouched); with "
+    "center_on_edge=False and a sea surface the centre stays undecided",
+    "6b: between the first and last node of a user vector inside the "
+    "user's domain (>= 3 such nodes) the mesh has no other node",
+    "7b: a sea surface designed to be fitted (gap to the centre block = "
+    "(n+0.02) minimum widths, n >= 1, stretching[1] >= 1.05, centre on an "
+    "edge, no user vector) must be within 1e-6 minimum widths of a node "
+    "whatever the warning says: the docstring promises the attempt and "
+    "names only 'too close to the center' as reason for failing; a run in "
+    "which the sea surface is a node in < 30 % of the meshes with a sea "
+    "surface is a harness error",
+    "no gridding function may change its argument objects (deep comparison "
+    "before/after, dtype included) and a second call with the same objects "
+    "returns the identical mesh (Simulation re-uses gridding_opts)",
+    "verb: 0 and -1 print nothing, -1 returns (origin, widths, info str), "
+    "1 prints; raise_error=False returns (None, None[, info]) exactly when "
+    "the RuntimeError would have been raised; construct_mesh attaches "
+    "construct_mesh_info",
+    "ego oracle (checker code): passed-along options come back with the "
+    "same per-direction meaning (3-sequence or x/y/z dict); frequency = "
+    "10**mean(log10 f); centre = mean of the (point) source locations; "
+    "buffer properties = forward map of the lowest conductivity over all "
+    "present components of the six outermost cell layers, the first "
+    "property only within the model's range (its rule is not documented); "
+    "domain = given domain > distance > vector (None accepted for the last "
+    "two: construct_mesh derives the same), else survey extent + 10 % with "
+    "the documented 1:3 horizontal rule (symmetric expansion, 0.5 m slack "
+    "per side: the code rounds to whole metres) and for z the extent with "
+    "or without the 10 % (text and code differ; both accepted), at least "
+    "min(larger horizontal dimension, 10 km)/2, expanded 9:1 down:up (+-0.5 "
+    "m); unknown key -> TypeError.  input_sc2 (deprecated) not used",
     "oracle formulas (checker code, no emg3d helper): skin depth "
     "sqrt(2/(omega sigma mu0)), wavelength 2 pi delta, minimum width "
     "clip(delta/pps, limits), survey domain = domain > distance > vector "
@@ -405,8 +459,8 @@ def check_dir(E, x0, hx, sea_warned, tag=''):
             created = D['tv'] is not None or E['coe'] is not False
             b0 = s0*(1.25 if created else 1.1)
         inner = nodes[1:-1]
-        ins = np.array([(x > D['dom'][0]+tolx(x)) and (x < D['dom'][1]-tolx(x))
-                        for x in inner], bool)
+        tin = err + 1e-9*(np.abs(inner) + hmin)          # = tolx(inner)
+        ins = (inner > D['dom'][0]+tin) & (inner < D['dom'][1]-tin)
         sel = check & ins
         if sel.any() and rat[sel].max() > b0*(1+1e-9):
             i = int(np.argmax(np.where(sel, rat, 0)))
@@ -705,14 +759,36 @@ def repair_buffer(Es, limit=200):
     return need
 
 
-def make_cells(cs, need):
+# The search of origin_and_widths tries, for every permitted cell number below
+# the first feasible one, up to nsa x nca stretching pairs (100 x 100 for
+# stretching[0] > 1.1).  The added generator dimensions that lengthen the
+# search (default cell list, second call) are used only where this bound is
+# small (the coverage-instrumented fuzz runs are ~100x slower per pair).
+SEARCH_CAP = 6000
+
+
+def _search_cost(Es, cells):
+    c = 0
+    for E in Es:
+        if derive(E)['dom'] is None:
+            continue
+        s0, s1 = E['stretching']
+        nsa = max(1, min(100, int((s0-1)/0.001)))
+        nca = max(1, min(100, int((max(s0, s1)-1)/0.001)))
+        need = estimate_need(E)
+        c += sum(1 for k in cells if k < need)*nsa*nca
+    return c
+
+
+def make_cells(cs, need, Es=None):
     """cell_numbers list (JSON-able ints, all <= 256) and design label.
     `need` (estimate_need) was measured to be exact in 97 % and within +-2
     in all of 293 feasible cases."""
     base = good_numbers(256, cs['max_lowest'], cs['min_div'])
     kind = cs['kind']
     if kind == 'default':
-        if need <= 200:
+        if need <= 200 and (Es is None or _search_cost(
+                Es, DEFAULT_CELLS) <= SEARCH_CAP):
             # the argument is omitted; permitted = the documented default
             return list(DEFAULT_CELLS), 'feasible'
         kind = 'good_full'
@@ -866,7 +942,8 @@ def case_oaw(spec, rec):
         need = repair_buffer([E])
     else:
         need = 8
-    cells, design = make_cells(spec['cells'], need)
+    cells, design = make_cells(spec['cells'], need,
+                               [E] if invalid is None else None)
     E['cell_numbers'] = cells
 
     # ---- the call, as a user would write it --------------------------
@@ -980,7 +1057,8 @@ def case_oaw(spec, rec):
     msgs = [str(w.message) for w in wlist]
     warned = any(SEA_WARN in m for m in msgs)
     D, seares = check_dir(E, out[0], out[1], warned)
-    if spec.get('twice', False) and ENABLE_IMMUTABLE:
+    if spec.get('twice', False) and ENABLE_IMMUTABLE and \
+            _search_cost([E], cells) <= SEARCH_CAP:
         with warnings.catch_warnings(), contextlib.redirect_stdout(buf):
             warnings.simplefilter('ignore')
             out2 = _call(meshes.origin_and_widths, kw, E)
@@ -1183,11 +1261,9 @@ def case_cm(spec, rec):
         dm = derive(Es[2])['dmin']
         Es[2]['seasurface'] = Es[2]['center'] - (
             dm if invalid == 'sea_below' else 0)
-    if invalid is None:
-        need = repair_buffer(Es)
-    else:
-        need = 8
-    cells, design = make_cells(spec['cells'], need)
+    # (the valid directions are still searched before the error is raised)
+    need = repair_buffer(Es)
+    cells, design = make_cells(spec['cells'], need, Es)
     for E in Es:
         E['cell_numbers'] = cells
 
@@ -1295,7 +1371,8 @@ def case_cm(spec, rec):
                   ckind if (ckind != 'default' or omit_cells)
                   else 'good_full', pre=f"{DIRS[k]}:")
     _sea_count(Es[2], seares)
-    if spec.get('twice', False) and ENABLE_IMMUTABLE:
+    if spec.get('twice', False) and ENABLE_IMMUTABLE and \
+            _search_cost(Es, cells) <= SEARCH_CAP:
         with warnings.catch_warnings(), contextlib.redirect_stdout(buf):
             warnings.simplefilter('ignore')
             mesh2 = _call(emg3d.construct_mesh, kw, Es, tag='[cm]')
@@ -1414,6 +1491,65 @@ def case_gmc(spec, rec):
             f"{only_exp}, sorted={got == sorted(got)}", {'spec': spec})
     if exp:
         rec.nt(['gmc', spec])
+
+
+# ======================================================================
+# Sub-check 3b: the documented formulas of the public helpers
+# ======================================================================
+HLP_SPEC = st.fixed_dictionaries({
+    'f': gen.lgfloat(1e-3, 1e3), 'laplace': st.booleans(),
+    'cond': st.lists(COND, min_size=1, max_size=3),
+    'mu_r': st.one_of(st.none(), gen.lgfloat(0.1, 100)),
+    'pps': st.one_of(st.none(), st.sampled_from([1, 3, 10]),
+                     st.floats(0.5, 20)),
+    'lim': st.fixed_dictionaries({
+        'kind': W(('none', 1), ('float', 1), ('pair', 2)),
+        'a': gen.lgfloat(0.3, 3), 'b': gen.lgfloat(1.0, 4)}),
+    'container': st.sampled_from(['list', 'tuple', 'array']),
+})
+
+
+def case_hlp(spec, rec):
+    """skin_depth = sqrt(2/(omega sigma mu_r mu_0)) (Laplace: see
+    ASSUMPTIONS), wavelength = 2 pi delta, cell_width = delta/pps limited
+    as documented (None / float / [min, max])."""
+    from emg3d import meshes
+    f = -spec['f'] if spec['laplace'] else spec['f']
+    cond = np.array(spec['cond'], float)
+    mu_r = spec['mu_r']
+    arg = float(cond[0]) if cond.size == 1 else cond
+    got = meshes.skin_depth(f, arg) if mu_r is None else \
+        meshes.skin_depth(f, arg, mu_r=mu_r)
+    exp = own_skin_depth(f, cond)/np.sqrt(1.0 if mu_r is None else mu_r)
+    got = np.atleast_1d(np.asarray(got, float))
+    if got.shape != exp.shape or np.any(np.abs(got-exp) > 1e-12*exp):
+        raise Violation(f"skin_depth:mu_r={'1' if mu_r is None else 'given'}",
+                        f"skin_depth({f}, {arg}, mu_r={mu_r}) = {got}, "
+                        f"documented formula gives {exp}", {'spec': spec})
+    wl = np.atleast_1d(np.asarray(meshes.wavelength(got), float))
+    if np.any(np.abs(wl-2*np.pi*got) > 1e-12*wl):
+        raise Violation("wavelength", f"wavelength({got}) = {wl}",
+                        {'spec': spec})
+    pps = spec['pps']
+    sd0 = float(got[0])
+    lim = _limits({'lim': spec['lim']}, sd0/(3 if pps is None else pps))
+    larg = lim if not isinstance(lim, list) else _contain(
+        lim, spec['container'])
+    kw = {}
+    if pps is not None:
+        kw['pps'] = pps
+    if lim is not None:
+        kw['limits'] = larg
+    cw = np.asarray(meshes.cell_width(sd0, **kw), float)
+    cexp = own_dmin(sd0, 3 if pps is None else pps, lim)
+    if cw.size != 1 or abs(float(cw.ravel()[0])-cexp) > 1e-12*cexp:
+        raise Violation(f"cell_width:limits={spec['lim']['kind']}",
+                        f"cell_width({sd0}, {kw}) = {cw}, documented "
+                        f"{cexp}", {'spec': spec})
+    rec.cls(f"mu_r={'default' if mu_r is None else 'given'}",
+            f"limits={spec['lim']['kind']}", f"laplace={spec['laplace']}",
+            f"pps={'default' if pps is None else 'given'}")
+    rec.nt(['hlp', spec])
 
 
 # ======================================================================
@@ -1754,7 +1890,8 @@ def case_ego(spec, rec):
                          for d in gdom]})
 
 
-SUBS = {'oaw': case_oaw, 'cm': case_cm, 'gmc': case_gmc, 'ego': case_ego}
+SUBS = {'oaw': case_oaw, 'cm': case_cm, 'gmc': case_gmc, 'hlp': case_hlp,
+        'ego': case_ego}
 FUZZ = {'oaw': (OAW_SPEC, case_oaw), 'cm': (CM_SPEC, case_cm)}
 
 
@@ -1764,12 +1901,14 @@ def run(ctx):
     for k in _SEA:
         _SEA[k] = 0
     ctx.enumerate('gmc', gmc_specs(), case_gmc, exhaustive=False)
+    ctx.explore('hlp', HLP_SPEC, case_hlp, ctx.n(150, 600))
     ctx.explore('oaw', OAW_SPEC, case_oaw, ctx.n(900, 3600))
     ctx.explore('cm', CM_SPEC, case_cm, ctx.n(300, 1200))
-    ctx.explore('ego', EGO_SPEC, case_ego, ctx.n(250, 1000))
+    ctx.explore('ego', EGO_SPEC, case_ego, ctx.n(200, 1000))
     # coverage-guided campaigns over the same strategies / oracles
     ctx.fuzz('oaw', ctx.n(250, 4000))
-    ctx.fuzz('cm', ctx.n(80, 1200))
+    if not ctx.quick:      # construct_mesh searches can take minutes
+        ctx.fuzz('cm', ctx.n(80, 1200), timeout=2400)
     ctx.notes['designed_feasible'] = dict(_FEAS)
     ctx.notes['sea_surface'] = dict(_SEA)
     if _SEA['cases'] >= 60 and _SEA['node'] < 0.3*_SEA['cases']:
